@@ -167,6 +167,23 @@ def binify_part(run, np, cc):
                 if t.shape != (nm, na) or abs(t.sum() - rf[:, 2].sum()) > 0:
                     run.violation("binify with automatically generated bins does not conserve the total cycle count",
                                   {"rf": rf.tolist(), "ampbins": na, "meanbins": nm, "right": right, "sum": float(t.sum())}, {"fn": "binify"})
+                    continue
+                # growth: the bins binify reports (retbins) are the ones it used - they cover the data in the documented half-open sense,
+                # and binning again with them as explicit bins gives the same table; getbins does not care in which order the two ends come
+                if k % 5 == 0:
+                    try:
+                        t2, ab, mb = cc.binify(rf, na, nm, right=right, use_pandas=False, retbins=True)
+                        t3 = np.asarray(cc.binify(rf, ab, mb, right=right, use_pandas=False))
+                        amp, mean = rf[:, 0], rf[:, 1]
+                        cover = (len(ab) == na + 1 and len(mb) == nm + 1 and np.all(np.diff(ab) > 0) and np.all(np.diff(mb) > 0)
+                                 and ((ab[0] < amp.min() and amp.max() <= ab[-1] and mb[0] < mean.min() and mean.max() <= mb[-1]) if right else
+                                      (ab[0] <= amp.min() and amp.max() < ab[-1] and mb[0] <= mean.min() and mean.max() < mb[-1])))
+                        sw = cc.getbins(na, amp.min(), amp.max(), right=right)
+                        if not cover or not np.array_equal(np.asarray(t2), t) or not np.array_equal(t3, t) or not np.array_equal(sw, cc.getbins(na, amp.max(), amp.min(), right=right)):
+                            run.deviation("CycleCount (reported bins)", "binify(retbins=True): the reported bins do not cover the data / give another table when used explicitly / getbins depends on the order of its ends",
+                                          {"rf": rf.tolist(), "ampbins": na, "meanbins": nm, "right": right})
+                    except Exception as ex:
+                        run.deviation("CycleCount (reported bins)", "binify(retbins=True) raised %r" % ex, {"rf": rf.tolist(), "ampbins": na, "meanbins": nm, "right": right})
 
 
 def fde_part(run, np):
